@@ -86,7 +86,8 @@ SPEC = {
                  "C13_set_notes_true_difference", "C13_repeated_unsubscribe_noop", "C13_late_unsubscribe_example",
                  "C13_withelements_active", "C13_withelements_alternates", "C13_withelements_closed_after_teardown",
                  "C13_withelements_in_protocol", "C13_skeleton_list_inner_insertValue", "C13_skeleton_set_WithElements",
-                 "C13_skeleton_set_Decode", "C13_skeleton_event_WasTriggered", "C13_skeleton_variable_LogUpdates"],
+                 "C13_skeleton_set_Decode", "C13_skeleton_event_WasTriggered", "C13_skeleton_variable_LogUpdates",
+                 "C13_event_trace_ok", "C13_directed_set_logs_ok", "C13_decode_is_not_a_writer_witness"],
     "trusted_base": [
         "hand-written protocol model Hive/Model/Reactive.lean (+ ReactiveInst.lean) of ds/reactive variable_impl.go / set_impl.go / "
         "event_impl.go / utils.go, tied by (a) regenerated synchronisation skeletons stated as theorems, (b) differential execution of "
